@@ -120,7 +120,8 @@ def check(run):
             d = {}
             sv = {"good": good_sig, "upper": good_sig.upper(), "short": good_sig[:-2], "long": good_sig + "00", "nonstr": 5}
             hv = {"good": rr.choice(["04001608", "ab", "00" * 300]), "odd": "abc", "empty": "", "upper": "AB", "nonhex": "zz", "nonstr": ["ab"]}
-            fv = {"good": "f0" * 20, "short": "f0" * 19 + "f", "long": "f0" * 20 + "0", "upper": "F0" * 20, "nonstr": 40,
+            fv = {"good": "f0" * 20, "short": "f0" * 19 + "f", "long": "f0" * 20 + "0", "short_even": rr.choice(["f0" * 19, "f0", "f0" * 16]),
+                  "long_even": rr.choice(["f0" * 21, "f0" * 32, "f0" * 40]), "upper": "F0" * 20, "nonstr": 40,
                   "falsy": rr.choice(["", None, 0, [], {}, False, 0.0])}
             if e["sig"] != "absent":
                 d["signature"] = sv[e["sig"]]
